@@ -124,6 +124,11 @@ def ofOptBool : Option Bool → Sx
   | some true => .atom "t"
   | some false => .atom "f"
 
+def asBool : Sx → Option Bool
+  | .atom "t" => some true
+  | .atom "f" => some false
+  | _ => none
+
 def ofBool (b : Bool) : Sx := .atom (if b then "t" else "f")
 
 def asOptStr : Sx → Option (Option String)
